@@ -25,7 +25,7 @@ use mahf::state::common::{Evaluations, Iterations};
 use mahf::{Configuration, ExecResult, Problem, Random, SingleObjective, SingleObjectiveProblem, State};
 use better_any::TidAble;
 use rand::{RngCore, SeedableRng};
-use rand_chacha::ChaCha12Rng;
+use rand_chacha::{ChaCha12Rng, ChaCha20Rng, ChaCha8Rng};
 
 // ------------------------------------------------------------------------------------------------
 // wrapper problem: same problem, objective calls take a pseudo-random 0–200 µs
@@ -225,33 +225,143 @@ fn log_setup<Q: SingleObjectiveProblem>(state: &mut State<Q>) -> ExecResult<()> 
     })
 }
 
-/// The seed of the generator found in the state when `setup` runs (observed experiment seed), logged.
+/// Identity of the generator the run really draws from, observed DURING the run (a log trigger reads
+/// `state.random_mut().config()` every time the `Logger` executes) and exported with the log.
 #[derive(Clone, Default, serde::Serialize, better_any::Tid, derive_more::Deref, derive_more::DerefMut)]
 pub struct SeedMark(pub u64);
 impl mahf::CustomState<'_> for SeedMark {}
+#[derive(Clone, Default, serde::Serialize, better_any::Tid, derive_more::Deref, derive_more::DerefMut)]
+pub struct BackendMark(pub u64);
+impl mahf::CustomState<'_> for BackendMark {}
+const UNOBSERVED: u64 = u64::MAX;
+fn backend_code(name: &str) -> u64 {
+    if name == std::any::type_name::<ChaCha12Rng>() { 0 }
+    else if name == std::any::type_name::<ChaCha8Rng>() { 1 }
+    else if name == std::any::type_name::<UserRng>() { 2 }
+    else if name == std::any::type_name::<Ctr>() { 3 }
+    else { 9 }
+}
 #[derive(Clone, serde::Serialize)]
-struct Always;
-impl<P: Problem> mahf::Condition<P> for Always {
-    fn evaluate(&self, _p: &P, _s: &mut State<P>) -> ExecResult<bool> { Ok(true) }
+struct ProbeRng;
+impl<P: Problem> mahf::Condition<P> for ProbeRng {
+    fn evaluate(&self, _p: &P, state: &mut State<P>) -> ExecResult<bool> {
+        let (seed, code) = { let r = state.random_mut(); (r.config().seed, backend_code(r.config().name)) };
+        state.set_value::<SeedMark>(seed);
+        state.set_value::<BackendMark>(code);
+        Ok(true)
+    }
 }
 fn exp_setup<Q: SingleObjectiveProblem + ObjectiveFunction + Sync>(state: &mut State<Q>, par: bool) -> ExecResult<()> {
-    let seed = state.random_mut().config().seed;
-    state.insert(SeedMark(seed));
+    state.insert(SeedMark(UNOBSERVED));
+    state.insert(BackendMark(UNOBSERVED));
     if par { state.insert_evaluator(Parallel::<Q>::new()) } else { state.insert_evaluator(Sequential::<Q>::new()) }
     log_setup(state)?;
-    state.configure_log(|c| { c.with_auto::<SeedMark>(Box::new(Always)); Ok(()) })
+    state.configure_log(|c| { c.with_auto::<SeedMark>(Box::new(ProbeRng)); c.with_auto::<BackendMark>(Box::new(ProbeRng)); Ok(()) })
 }
-/// The `SeedMark` value in the first step of an exported (compressed CBOR) log.
-fn seed_in_file(p: &std::path::Path) -> Option<u64> {
+/// The value logged for custom state `T` in the first step of an exported (compressed CBOR) log.
+fn mark_in_file<T>(p: &std::path::Path) -> Option<u64> {
     let bytes = std::fs::read(p).ok()?;
     let v: ciborium::Value = ciborium::de::from_reader(&bytes[..]).ok()?;
     let top = v.as_map()?;
     let get = |key: &str| top.iter().find(|(k, _)| k.as_text() == Some(key)).map(|(_, v)| v);
     let names = get("names")?.as_array()?;
-    let key = names.iter().position(|n| n.as_text() == Some(std::any::type_name::<SeedMark>()))?;
+    let key = names.iter().position(|n| n.as_text() == Some(std::any::type_name::<T>()))?;
     let first = get("entries")?.as_array()?.first()?.as_map()?;
     let val = first.iter().find(|(k, _)| k.as_integer().and_then(|i| u64::try_from(i).ok()) == Some(key as u64))?.1.clone();
     val.as_integer().and_then(|i| u64::try_from(i).ok())
+}
+fn seed_in_file(p: &std::path::Path) -> Option<u64> { mark_in_file::<SeedMark>(p).filter(|s| *s != UNOBSERVED) }
+fn backend_in_file(p: &std::path::Path) -> Option<u64> { mark_in_file::<BackendMark>(p).filter(|s| *s != UNOBSERVED) }
+
+/// Transparent backend: the stream of seed `s` is `s, s+1, s+2, …` (wrapping); `next_u32` is the low half
+/// of the next word; `fill_bytes` writes the little-endian bytes of successive words. Same definition
+/// as `MahfModel.Determinism.ctr`, so the model predicts `Random::with_rng::<Ctr>(s)` completely and
+/// the first word shows which seed really reached the backend.
+pub struct Ctr(u64);
+impl RngCore for Ctr {
+    fn next_u32(&mut self) -> u32 { self.next_u64() as u32 }
+    fn next_u64(&mut self) -> u64 { let w = self.0; self.0 = self.0.wrapping_add(1); w }
+    fn fill_bytes(&mut self, d: &mut [u8]) {
+        for chunk in d.chunks_mut(8) { let w = self.next_u64().to_le_bytes(); let n = chunk.len(); chunk.copy_from_slice(&w[..n]); }
+    }
+    fn try_fill_bytes(&mut self, d: &mut [u8]) -> Result<(), rand::Error> { self.fill_bytes(d); Ok(()) }
+}
+impl SeedableRng for Ctr {
+    type Seed = [u8; 8];
+    fn from_seed(seed: Self::Seed) -> Self { Ctr(u64::from_le_bytes(seed)) }
+    fn seed_from_u64(s: u64) -> Self { Ctr(s) }
+}
+
+/// The generator a user might supply: backend code (see `backend_code`) and seed.
+fn make_rng(code: u64, seed: u64) -> Random {
+    match code {
+        0 => Random::new(seed),
+        1 => Random::with_rng::<ChaCha8Rng>(seed),
+        2 => Random::with_rng::<UserRng>(seed),
+        3 => Random::with_rng::<Ctr>(seed),
+        _ => Random::with_rng::<ChaCha20Rng>(seed),
+    }
+}
+
+// draw scripts on `Random` and on the bare backend ----------------------------------------------------
+#[derive(Clone, Copy)]
+enum DrawOp { U64, U32, Fill(usize), Try(usize) }
+fn parse_ops(items: &[Sx]) -> Vec<DrawOp> {
+    items.iter().map(|o| match o.atom() {
+        Some("u64") => DrawOp::U64,
+        Some("u32") => DrawOp::U32,
+        _ => { let (h, a) = o.head().unwrap(); let n = a[0].nat().unwrap() as usize; if h == "fill" { DrawOp::Fill(n) } else { DrawOp::Try(n) } }
+    }).collect()
+}
+fn draw(r: &mut dyn RngCore, op: DrawOp) -> Vec<u64> {
+    match op {
+        DrawOp::U64 => vec![r.next_u64()],
+        DrawOp::U32 => vec![r.next_u32() as u64],
+        DrawOp::Fill(n) => { let mut b = vec![0u8; n]; r.fill_bytes(&mut b); b.into_iter().map(u64::from).collect() }
+        DrawOp::Try(n) => { let mut b = vec![0u8; n]; if r.try_fill_bytes(&mut b).is_err() { return vec![999] } b.into_iter().map(u64::from).collect() }
+    }
+}
+fn render_out(out: &[Vec<u64>]) -> String { tagged("out", out.iter().map(|v| nats(v.iter().copied()))) }
+/// `Random` walked down `path` (child number i of the current generator, alternately through
+/// `iter_children` and `IntoIterator for &mut Random`), then the script → seeds reported on the way
+/// (`config().seed`: the witness), backend kept, outputs.
+fn walk_random(root: Random, backend_name: &str, path: &[u64], ops: &[DrawOp]) -> (Vec<u64>, bool, Vec<Vec<u64>>) {
+    let mut kept = root.config().name == backend_name;
+    let mut seeds = vec![];
+    let mut cur = root;
+    for (lvl, &i) in path.iter().enumerate() {
+        let child = if lvl % 2 == 0 { cur.iter_children().take(i as usize + 1).last().unwrap() } else { (&mut cur).into_iter().take(i as usize + 1).last().unwrap() };
+        seeds.push(child.config().seed);
+        kept &= child.config().name == backend_name;
+        cur = child;
+    }
+    let out: Vec<Vec<u64>> = ops.iter().map(|&op| draw(&mut cur, op)).collect();
+    (seeds, kept, out)
+}
+fn render_walk(w: &(Vec<u64>, bool, Vec<Vec<u64>>)) -> [String; 3] {
+    [tagged("seeds", w.0.iter().map(|s| s.to_string())), list(["kept".into(), b(w.1)]), render_out(&w.2)]
+}
+/// Reference: the draw script on the bare backend seeded through rand's own `SeedableRng::seed_from_u64`
+/// with the seed the descendant reports (the root's seed for the empty path).
+fn ref_backend<B: RngCore + SeedableRng>(seed: u64, ops: &[DrawOp]) -> Vec<Vec<u64>> {
+    let mut cur = B::seed_from_u64(seed);
+    ops.iter().map(|&op| draw(&mut cur, op)).collect()
+}
+fn stream_case<B: RngCore + SeedableRng + Send + 'static>(via_new: bool, seed: u64, path: &[u64], ops: &[DrawOp]) -> String {
+    let mk = || if via_new { Random::new(seed) } else { Random::with_rng::<B>(seed) };
+    let name = std::any::type_name::<B>();
+    let r = catch(|| {
+        let a = walk_random(mk(), name, path, ops);
+        let a2 = walk_random(mk(), name, path, ops);
+        let last = a.0.last().copied().unwrap_or(seed);
+        let rf = ref_backend::<B>(last, ops);
+        (a, a2, rf)
+    });
+    match r {
+        Some((a, a2, rf)) => list(["stream".into(), tagged("impl", render_walk(&a)), tagged("again", render_walk(&a2)),
+            tagged("ref", [tagged("seeds", a.0.iter().map(|s| s.to_string())), render_out(&rf)])]),
+        None => "(stream panic panic (ref (seeds) (out)))".into(),
+    }
 }
 
 /// Counting wrapper around the default generator: same stream as `Random::new(seed)`.
@@ -303,6 +413,47 @@ where
     }
 }
 
+/// A generator of backend `code` seeded `seed` from which the user has already drawn `k` words.
+fn advanced_rng(code: u64, seed: u64, k: u64) -> Random {
+    let mut r = make_rng(code, seed);
+    for _ in 0..k { r.next_u64(); }
+    r
+}
+/// One run with the generator `mk()` supplied by the user, either through `optimize_with` or through
+/// the public `Configuration::run` on a hand-built state (Log, Populations, generator, evaluator).
+fn run_digest_supplied<Q>(config: &Configuration<Q>, problem: &Q, mk: &dyn Fn() -> Random, par: bool, handbuilt: bool, enc: &dyn Fn(&Q::Encoding) -> String) -> String
+where
+    Q: SingleObjectiveProblem + ObjectiveFunction + Sync,
+{
+    let want = { let g = mk(); (g.config().name, g.config().seed) };
+    let r = catch(|| -> ExecResult<State<Q>> {
+        let init = |state: &mut State<Q>| -> ExecResult<()> {
+            state.insert(mk());
+            if par { state.insert_evaluator(Parallel::<Q>::new()) } else { state.insert_evaluator(Sequential::<Q>::new()) }
+            log_setup(state)
+        };
+        if handbuilt {
+            let mut state = State::new();
+            state.insert(mahf::logging::Log::new());
+            state.insert(mahf::state::common::Populations::<Q>::new());
+            init(&mut state)?;
+            config.run(problem, &mut state)?;
+            Ok(state)
+        } else {
+            config.optimize_with(problem, init)
+        }
+    });
+    match r {
+        None => "panic".into(),
+        Some(Err(_)) => "err".into(),
+        Some(Ok(state)) => {
+            let got = { let rnd = state.random_mut(); (rnd.config().name, rnd.config().seed) };
+            if got != want { return "rng-replaced".into(); }
+            fnv(&state_string(&state, enc))
+        }
+    }
+}
+
 fn pools() -> Vec<(usize, rayon::ThreadPool)> {
     [1usize, 2, 3, 4, 8, 16].iter().map(|&n| (n, rayon::ThreadPoolBuilder::new().num_threads(n).build().expect("pool"))).collect()
 }
@@ -318,6 +469,9 @@ fn all_runs<P: HP>(config: &Configuration<J<P>>, inner: &P, cx: &Ctx) -> Vec<Str
     out.push(list(["seq-again".into(), run_digest(config, &plain, cx.seed, false, Gen::Seeded, &enc)]));
     let cloned = config.clone();
     out.push(list(["clone-seq".into(), run_digest(&cloned, &J::new(inner.clone(), None), cx.seed, false, Gen::Seeded, &enc)]));
+    // the public `Configuration::run` on a hand-built state holding the same generator
+    let seed = cx.seed;
+    out.push(list(["handbuilt-run".into(), run_digest_supplied(config, &plain, &|| Random::new(seed), false, true, &enc)]));
     for (k, (n, pool)) in cx.pools.iter().enumerate() {
         let jp = J::new(inner.clone(), Some(cx.jseed.wrapping_add(k as u64)));
         let cfg = if k % 2 == 0 { config } else { &cloned };
@@ -419,6 +573,26 @@ impl JUser for SeqOnly {
     }
 }
 
+/// A user generator that was already drawn from (`k` words) when handed over: hand-built state +
+/// `Configuration::run`, `optimize_with` (twice), `optimize_with` + parallel evaluation.
+struct AdvRuns<'a> { seed: u64, k: u64, code: u64, pool: &'a rayon::ThreadPool }
+impl<'a> JUser for AdvRuns<'a> {
+    type Out = Vec<String>;
+    fn use_config<P: HP>(self, config: &Configuration<J<P>>, inner: P) -> Vec<String> where P::Encoding: std::fmt::Debug {
+        let enc = |s: &P::Encoding| P::enc(s);
+        let (seed, k, code) = (self.seed, self.k, self.code);
+        let mk = move || advanced_rng(code, seed, k);
+        let plain = J::new(inner.clone(), None);
+        let jp = J::new(inner, Some(seed ^ 0x51));
+        vec![
+            list(["handbuilt-run".into(), run_digest_supplied(config, &plain, &mk, false, true, &enc)]),
+            list(["optimize-with".into(), run_digest_supplied(config, &plain, &mk, false, false, &enc)]),
+            list(["optimize-with-again".into(), run_digest_supplied(&config.clone(), &plain, &mk, false, false, &enc)]),
+            list(["optimize-with-parallel".into(), self.pool.install(|| run_digest_supplied(config, &jp, &mk, true, false, &enc))]),
+        ]
+    }
+}
+
 // generated configurations on J<Sphere> -------------------------------------------------------------
 type JS = J<Sphere>;
 fn gen_config(spec: &[Sx]) -> Configuration<JS> {
@@ -490,22 +664,26 @@ fn tmp_root() -> PathBuf { PathBuf::from("/verif/harness/target/tmp") }
 
 /// Child process: runs the real `par_experiment` on `nprob` problems (different instances, labelled
 /// p0, p1, …) inside a pool of `pool` threads, writing under `dir`.
-struct ExpChild { runs: u64, pool: usize, nprob: u32, dir: PathBuf }
+struct ExpChild { runs: u64, pool: usize, nprob: u32, dir: PathBuf, user: Option<(u64, u64)> }
 impl JUser for ExpChild {
     type Out = bool;
     fn use_config<P: HP>(self, config: &Configuration<J<P>>, _inner: P) -> bool where P::Encoding: std::fmt::Debug {
         let problems: Vec<J<P>> = (0..self.nprob).map(|i| J::labelled(P::instance(i), Some(0x5eed + i as u64), format!("p{i}"))).collect();
         let tp = rayon::ThreadPoolBuilder::new().num_threads(self.pool).build().expect("pool");
-        let (runs, dir) = (self.runs, self.dir.clone());
+        let (runs, dir, user) = (self.runs, self.dir.clone(), self.user);
         let r = catch(|| tp.install(|| {
-            mahf::experiments::par_experiment(config, |state: &mut State<J<P>>| exp_setup(state, true), &problems, runs, &dir, true)
+            mahf::experiments::par_experiment(config, |state: &mut State<J<P>>| {
+                // a `setup` that supplies its own generator (own backend, own seed)
+                if let Some((code, useed)) = user { state.insert(make_rng(code, useed)); }
+                exp_setup(state, true)
+            }, &problems, runs, &dir, true)
         }));
         matches!(r, Some(Ok(())))
     }
 }
 /// Parent: for every (problem, run) the single-run reference seeded with the run number, exported
 /// through the same `to_cbor`; the experiment's files; the seeds observed inside the experiment's jobs.
-struct ExpRef { runs: u64, nprob: u32, dir: PathBuf }
+struct ExpRef { runs: u64, nprob: u32, dir: PathBuf, user: Option<(u64, u64)> }
 impl JUser for ExpRef {
     type Out = (String, String, Vec<String>);
     fn use_config<P: HP>(self, config: &Configuration<J<P>>, _inner: P) -> (String, String, Vec<String>) where P::Encoding: std::fmt::Debug {
@@ -514,7 +692,7 @@ impl JUser for ExpRef {
             let problem = J::labelled(P::instance(pi), None, format!("p{pi}"));
             for run in 0..self.runs {
                 let r = catch(|| config.optimize_with(&problem, |state: &mut State<J<P>>| {
-                    state.insert(Random::new(run));
+                    state.insert(match self.user { None => Random::new(run), Some((code, useed)) => make_rng(code, useed) });
                     exp_setup(state, false)
                 }));
                 let one = match r {
@@ -530,7 +708,12 @@ impl JUser for ExpRef {
                 let f = self.dir.join(format!("{}_{run}.cbor", problem.name()));
                 files.push_str(&cbor_file_canon(&f));
                 files.push('\n');
-                seeds.push(list([pi.to_string(), run.to_string(), seed_in_file(&f).map(|s| s.to_string()).unwrap_or("unobserved".into())]));
+                let seen = seed_in_file(&f).map(|s| s.to_string()).unwrap_or("unobserved".into());
+                if self.user.is_some() {
+                    seeds.push(list([pi.to_string(), run.to_string(), backend_in_file(&f).map(|s| s.to_string()).unwrap_or("unobserved".into()), seen]));
+                } else {
+                    seeds.push(list([pi.to_string(), run.to_string(), seen]));
+                }
             }
         }
         (fnv(&single), fnv(&files), seeds)
@@ -538,6 +721,12 @@ impl JUser for ExpRef {
 }
 
 // ------------------------------------------------------------------------------------------------
+
+/// Seeds at which an implementation is most likely to special-case.
+const BOUNDARY_SEEDS: [u64; 20] = [
+    0, 1, 2, u64::MAX, u64::MAX - 1, 0xFFFF_FFFF, 0x1_0000_0000, 0x1_0000_0001, 1 << 63, (1 << 63) - 1, (1 << 63) + 1,
+    42, 0xDEAD_BEEF, 0x9E37_79B9_7F4A_7C15, 0x5DEE_CE66D, 0x6A09_E667_F3BC_C908, 255, 256, 65_535, 65_536,
+];
 
 fn first_words(r: &mut Random, n: usize) -> Vec<u64> { (0..n).map(|_| r.next_u64()).collect() }
 
@@ -576,22 +765,61 @@ fn run_case(input: &Sx, pools: &[(usize, rayon::ThreadPool)]) -> String {
             let up = pools[3].1.install(|| with_jtemplate(name, v, 0, iters, SeqOnly { seed, gen: Gen::User, par: true })).unwrap_or("ctor-err".into());
             tagged("digests", [list(["seeded".into(), s]), list(["user".into(), u]), list(["user-parallel".into(), up])])
         }
-        "exp" => {
+        "exp" | "exp-user" => {
             let name = a[0].atom().unwrap();
             let (v, iters, runs, pool, nprob) = (n(1) as u32, n(2) as u32, n(3), n(4), n(5) as u32);
-            let dir = tmp_root().join(format!("c08-{}-{name}-{v}-{iters}-{runs}-{pool}-{nprob}", std::process::id()));
+            let user = if h == "exp-user" { Some((n(6), n(7))) } else { None };
+            let dir = tmp_root().join(format!("c08-{}-{h}-{name}-{v}-{iters}-{runs}-{pool}-{nprob}", std::process::id()));
             let _ = std::fs::remove_dir_all(&dir);
             std::fs::create_dir_all(&dir).expect("tmp dir");
+            let mut argv = vec!["--exp".to_string(), name.to_string(), v.to_string(), iters.to_string(), runs.to_string(), pool.to_string(), nprob.to_string(), dir.to_str().unwrap().to_string()];
+            if let Some((code, useed)) = user { argv.push(code.to_string()); argv.push(useed.to_string()); }
             let st = std::process::Command::new(std::env::current_exe().unwrap())
-                .args(["--exp", name, &v.to_string(), &iters.to_string(), &runs.to_string(), &pool.to_string(), &nprob.to_string(), dir.to_str().unwrap()])
+                .args(&argv)
                 .stdout(std::process::Stdio::null()).stderr(std::process::Stdio::null()).status();
             let child_ok = matches!(st, Ok(s) if s.success());
             let ron_ok = dir.join("configuration.ron").exists();
-            let (single, files, seeds) = with_jtemplate(name, v, 0, iters, ExpRef { runs, nprob, dir: dir.clone() })
+            let (single, files, seeds) = with_jtemplate(name, v, 0, iters, ExpRef { runs, nprob, dir: dir.clone(), user })
                 .unwrap_or(("ctor-err".into(), "ctor-err".into(), vec![]));
             let _ = std::fs::remove_dir_all(&dir);
             let files = if child_ok && ron_ok { files } else { "experiment-failed".into() };
-            list(["exp".into(), tagged("seeds", seeds), tagged("digests", [list(["single-runs".into(), single]), list(["par-experiment".into(), files])])])
+            list([h.to_string(), tagged(if user.is_some() { "gens" } else { "seeds" }, seeds), tagged("digests", [list(["single-runs".into(), single]), list(["par-experiment".into(), files])])])
+        }
+        "adv-rng" => {
+            let name = a[0].atom().unwrap();
+            let (v, iters, seed, k, code) = (n(1) as u32, n(2) as u32, n(3), n(4), n(5));
+            tagged("digests", with_jtemplate(name, v, 0, iters, AdvRuns { seed, k, code, pool: &pools[3].1 }).unwrap_or(vec![list(["handbuilt-run".into(), "ctor-err".into()])]))
+        }
+        "stream" => {
+            let backend = a[0].atom().unwrap();
+            let seed = n(1);
+            let path: Vec<u64> = a[2].head().unwrap().1.iter().map(|x| x.nat().unwrap()).collect();
+            let ops = parse_ops(a[3].head().unwrap().1);
+            match backend {
+                "new" => stream_case::<ChaCha12Rng>(true, seed, &path, &ops),
+                "chacha12" => stream_case::<ChaCha12Rng>(false, seed, &path, &ops),
+                "chacha8" => stream_case::<ChaCha8Rng>(false, seed, &path, &ops),
+                "chacha20" => stream_case::<ChaCha20Rng>(false, seed, &path, &ops),
+                "std" => stream_case::<rand::rngs::StdRng>(false, seed, &path, &ops),
+                "user" => stream_case::<UserRng>(false, seed, &path, &ops),
+                "ctr" => stream_case::<Ctr>(false, seed, &path, &ops),
+                other => panic!("unknown backend {other}"),
+            }
+        }
+        "seedmap" => {
+            // which seed really reaches the backend: first word of the transparent backend
+            let s0 = n(0);
+            let r = catch(|| {
+                let e = Random::with_rng::<Ctr>(s0).next_u64();
+                let e2 = Random::with_rng::<Ctr>(e).next_u64();
+                let same = first_words(&mut Random::with_rng::<Ctr>(s0), 16) == first_words(&mut Random::with_rng::<Ctr>(e), 16)
+                    && first_words(&mut Random::new(s0), 16) == first_words(&mut Random::new(e), 16);
+                (e, e2, same)
+            });
+            match r {
+                Some((e, e2, same)) => format!("(seedmap (eff {e}) (eff2 {e2}) (same-stream {}))", b(same)),
+                None => "(seedmap panic)".into(),
+            }
         }
         "reuse" => {
             let name = a[0].atom().unwrap().to_string();
@@ -607,14 +835,16 @@ fn run_case(input: &Sx, pools: &[(usize, rayon::ThreadPool)]) -> String {
             let mut ca: Vec<Random> = pa.iter_children().take(k).collect();
             let mut pb = Random::new(seed);
             let mut cb: Vec<Random> = (&mut pb).into_iter().take(k).collect();
+            // witness: the seed every child reports
             let seeds: Vec<u64> = ca.iter().map(|c| c.config().seed).collect();
             let da: Vec<String> = ca.iter_mut().map(|c| fnv(&format!("{:?}", first_words(c, 64)))).collect();
             let db: Vec<String> = cb.iter_mut().map(|c| fnv(&format!("{:?}", first_words(c, 64)))).collect();
-            let dc: Vec<String> = words.iter().map(|w| fnv(&format!("{:?}", first_words(&mut Random::new(*w), 64)))).collect();
+            // reference: the bare default backend seeded with that seed through rand's own seed_from_u64
+            let dc: Vec<String> = seeds.iter().map(|w| { let mut g = ChaCha12Rng::seed_from_u64(*w); fnv(&format!("{:?}", (0..64).map(|_| g.next_u64()).collect::<Vec<u64>>())) }).collect();
             // after deriving k children both parents are at the same position
-            let tail_eq = first_words(&mut pa, 8) == first_words(&mut pb, 8) && first_words(&mut twin, 8) == { let mut t = Random::new(seed); first_words(&mut t, k + 8)[k..].to_vec() };
+            let tail_eq = first_words(&mut pa, 8) == first_words(&mut pb, 8);
             let mut da = da; if !tail_eq { da.push("parent-diverged".into()); }
-            list(["children".into(), tagged("words", words.iter().map(|w| w.to_string())), tagged("seeds", seeds.iter().map(|w| w.to_string())), tagged("a", da), tagged("b", db), tagged("c", dc)])
+            list(["children".into(), list(["parent".into(), seed.to_string()]), tagged("words", words.iter().map(|w| w.to_string())), tagged("seeds", seeds.iter().map(|w| w.to_string())), tagged("a", da), tagged("b", db), tagged("c", dc)])
         }
         "pairs" => {
             let (base, cnt) = (n(0), n(1));
@@ -645,7 +875,8 @@ fn main() {
     let argv: Vec<String> = std::env::args().collect();
     if argv.len() >= 9 && argv[1] == "--exp" {
         let p = |i: usize| argv[i].parse::<u64>().unwrap();
-        let ok = with_jtemplate(&argv[2], p(3) as u32, 0, p(4) as u32, ExpChild { runs: p(5), pool: p(6) as usize, nprob: p(7) as u32, dir: PathBuf::from(&argv[8]) }).unwrap_or(false);
+        let user = if argv.len() >= 11 { Some((p(9), p(10))) } else { None };
+        let ok = with_jtemplate(&argv[2], p(3) as u32, 0, p(4) as u32, ExpChild { runs: p(5), pool: p(6) as usize, nprob: p(7) as u32, dir: PathBuf::from(&argv[8]), user }).unwrap_or(false);
         std::process::exit(if ok { 0 } else { 3 });
     }
     if argv.len() >= 3 && argv[1] == "--digest" {
@@ -681,7 +912,9 @@ fn main() {
             for v in variants {
                 let iters = r.range(1, if a.thorough { 15 } else { 6 });
                 let fresh = if k % 4 == 0 { " fresh" } else { "" };
-                emit(format!("(run {name} {v} {} {iters} {}{fresh})", r.below(N_INSTANCES as u64), r.below(1 << 20)));
+                // run seeds: mostly small, every 5th case a boundary seed (0, 1, 2^32, 2^63, u64::MAX, …)
+                let seed = if k % 5 == 2 { BOUNDARY_SEEDS[(r.below(BOUNDARY_SEEDS.len() as u64)) as usize] } else { r.below(1 << 20) };
+                emit(format!("(run {name} {v} {} {iters} {seed}{fresh})", r.below(N_INSTANCES as u64)));
                 k += 1;
             }
             let _ = rep;
@@ -706,6 +939,13 @@ fn main() {
             emit(format!("(user-rng {name} {} {} {})", r.below(JV as u64), r.range(1, 4), r.below(1 << 20)));
         }
     }
+    // 3b. a user generator that was already drawn from / has another backend: hand-built state + `run` vs `optimize_with`
+    for (i, name) in TEMPLATES.iter().enumerate() {
+        for rep in 0..(if a.thorough { 4 } else { 1 }) {
+            let k = if rep == 0 && (i as u64 + a.seed) % 4 == 0 { 0 } else { r.range(1, 5) };
+            emit(format!("(adv-rng {name} {} {} {} {k} {})", r.below(JV as u64), r.range(1, 4), r.below(1 << 20), r.below(2)));
+        }
+    }
     // 4. the batch experiment runner: run counts 1–6 × pool sizes
     let exp_templates = ["real_ga", "real_rs", "binary_ga", "real_ils", "permutation_sa", "real_pso", "ant_system", "real_es", "real_cro", "permutation_ils"];
     let n_exp = if a.thorough { exp_templates.len() } else { 4 };
@@ -717,6 +957,45 @@ fn main() {
             emit(format!("(exp {name} {} {} {runs} {pool} {nprob})", r.below(JV as u64), r.range(1, 4)));
         }
     }
+    // 4b. the batch experiment runner with a `setup` that supplies its own generator (backend 0 = default, 1 = ChaCha8, 2 = counting wrapper)
+    for t in 0..(if a.thorough { 12 } else { 3 }) {
+        let name = exp_templates[(t + 2 * a.seed as usize) % exp_templates.len()];
+        let code = (t as u64 + a.seed) % 3;
+        let runs = 1 + (t as u64 + a.seed) % 3;
+        let pool = [1, 2, 4, 8][((t as u64 + a.seed) % 4) as usize];
+        let nprob = 1 + (t as u64 / 3 + a.seed) % 2;
+        // the user's seed is never one of the run numbers, so a replacement by `Random::new(run)` cannot go unnoticed
+        emit(format!("(exp-user {name} {} {} {runs} {pool} {nprob} {code} {})", r.below(JV as u64), r.range(1, 3), 1000 + r.below(1 << 20)));
+    }
+    // 4c. `Random` vs the bare backend (seeded through rand's own `seed_from_u64`; for `ctr` predicted by the model):
+    //     boundary and random seeds x backends x descendant paths (depth 0..4) x draw scripts over all four RngCore methods
+    let backends = ["new", "chacha12", "chacha8", "chacha20", "std", "user", "ctr"];
+    let gen_path = |r: &mut Sm| -> String { let d = r.below(5); tagged("path", (0..d).map(|_| r.below(4).to_string())) };
+    let gen_ops = |r: &mut Sm| -> String {
+        let n = r.range(1, 8);
+        tagged("ops", (0..n).map(|_| match r.below(5) { 0 | 1 => "u64".to_string(), 2 => "u32".to_string(), 3 => format!("(fill {})", r.below(21)), _ => format!("(try {})", r.below(21)) }))
+    };
+    for (bi, be) in backends.iter().enumerate() {
+        for (si, &seed) in BOUNDARY_SEEDS.iter().enumerate() {
+            if a.thorough || si < 8 || (si + bi + a.seed as usize) % 4 == 0 {
+                let path = if si % 3 == 0 { "(path)".to_string() } else { gen_path(&mut r) };
+                emit(format!("(stream {be} {seed} {path} {})", gen_ops(&mut r)));
+            }
+        }
+        for _ in 0..(if a.thorough { 300 } else { 25 }) {
+            let seed = r.next() >> r.below(64);
+            emit(format!("(stream {be} {seed} {} {})", gen_path(&mut r), gen_ops(&mut r)));
+        }
+    }
+    // the counter backend around the wrap (children with seed 0, u64::MAX) and a long path
+    emit(format!("(stream ctr {} (path 1 0 2 3) (ops u64 u32 (fill 9) (try 0) u64))", u64::MAX));
+    emit(format!("(stream ctr {} (path 0 2 1) (ops u64 u32 (fill 3) (try 9) u64))", u64::MAX - 1));
+    // 4d. which seed reaches the backend: all 2^k, 2^k ± 1, well-known constants, random seeds
+    let mut sm_seeds: Vec<u64> = BOUNDARY_SEEDS.to_vec();
+    for kbit in 0..64u32 { let p = 1u64 << kbit; sm_seeds.extend([p, p.wrapping_sub(1), p.wrapping_add(1)]); }
+    for _ in 0..(if a.thorough { 3000 } else { 150 }) { sm_seeds.push(r.next() >> r.below(64)); }
+    sm_seeds.sort(); sm_seeds.dedup();
+    for sd in sm_seeds { emit(format!("(seedmap {sd})")); }
     // 5. child generators, seed pairs
     for _ in 0..(if a.thorough { 2000 } else { 200 }) {
         emit(format!("(children {} {})", r.next() >> r.below(64), r.range(1, 12)));
